@@ -102,6 +102,40 @@ void h_collect_step(void)
   V_ASSERT(s->nblock <= CAP, "block never exceeds its capacity");
   V_CANARY("collect step");
 }
+
+/* encoder_init(): the state every block starts from is the empty saved state the collect() instances start from (fill 0, run state 0),
+   with the CRC start value and an empty in-use map; capacity and clustering factor as given. */
+void h_encoder_init(void)
+{
+  struct encoder_state *s = &W.e;
+  V_IN(unsigned long, mbs);
+  V_IN(unsigned, cf);
+  unsigned i;
+  V_ASSUME(mbs >= 1 && mbs <= MAX_BLOCK_SIZE && cf >= 1 && cf <= 65535);
+  for (i = 0; i < 256; i++) { bool b; s->cmap[i] = b; }
+  { int r; unsigned n; uint32_t c; s->rle_state = r; s->nblock = n; s->block_crc = c; }       /* leftovers */
+  encoder_init(s, mbs, cf);
+  V_ASSERT(s->max_block_size == mbs && s->cluster_factor == cf, "encoder_init: capacity and clustering factor as requested");
+  V_ASSERT(s->rle_state == 0 && s->nblock == 0 && s->block_crc == 0xFFFFFFFFu, "encoder_init: empty block, no pending run, CRC start value");
+  { int ok = 1; for (i = 0; i < 256; i++) if (s->cmap[i]) ok = 0; V_ASSERT(ok, "encoder_init: no byte value is marked used"); }
+  V_CANARY("encoder_init");
+}
+
+/* make_map_e(): the symbol map of the block -- used byte values are numbered consecutively in ascending order. */
+void h_make_map_e(void)
+{
+  uint8_t cmap[256]; bool inuse[256];
+  V_IN(unsigned, q);
+  unsigned i, below = 0, total = 0;
+  V_ASSUME(q < 256);
+  for (i = 0; i < 256; i++) { uint8_t r; bool b = (r & 1) != 0; inuse[i] = b; if (b) { total++; if (i < q) below++; } }      /* proper bool values (collect() only ever stores true) */
+  unsigned n = make_map_e(cmap, inuse);
+  V_ASSERT(n == total, "make_map_e: returns the number of byte values in use");
+  V_ASSERT(cmap[q] == (uint8_t)below, "make_map_e: every byte value is mapped to the number of used values below it (ascending, gap-free numbering)");
+  if (total == 256) V_CANARY("all values used");
+  if (total == 1) V_CANARY("one value used");
+}
+
 #ifdef VERIF_REPLAY
 int main(void) { HARNESS(); puts("REPLAY-PASS"); return 0; }
 #endif
